@@ -2,6 +2,7 @@ package main
 
 import (
 	"context"
+	"database/sql"
 	"encoding/json"
 	"errors"
 	"flag"
@@ -14,6 +15,8 @@ import (
 	"sync/atomic"
 	"time"
 
+	"entgo.io/ent/dialect"
+	entsql "entgo.io/ent/dialect/sql"
 	_ "github.com/mattn/go-sqlite3"
 	"github.com/ngicks/gokugen/def"
 	entrepo "github.com/ngicks/gokugen/repository/ent"
@@ -21,6 +24,7 @@ import (
 	"github.com/ngicks/gokugen/repository/inmemory"
 	"github.com/ngicks/und/option"
 
+	"verifharness/internal/gatedrv"
 	"verifharness/internal/proto"
 	"verifharness/internal/rng"
 	"verifharness/internal/sim"
@@ -105,8 +109,24 @@ func protoTime(t time.Time) string    { return proto.Time(t) }
 
 // openEntFile opens (and optionally creates the schema of) a file-backed SQLite repository.
 func openEntFile(file string, create bool) (*repoUnderTest, error) {
+	return openEntFileDriver(file, create, "sqlite3")
+}
+
+// openEntFileDriver: driverName = "sqlite3", or gatedrv.Name for the statement-boundary hooks.
+func openEntFileDriver(file string, create bool, driverName string) (*repoUnderTest, error) {
 	u := &repoUnderTest{clk: vclock.New(T0)}
-	client, err := gen.Open("sqlite3", "file:"+file+"?_fk=1")
+	var client *gen.Client
+	var err error
+	if driverName == "sqlite3" {
+		client, err = gen.Open("sqlite3", "file:"+file+"?_fk=1")
+	} else {
+		gatedrv.Register()
+		var db *sql.DB
+		db, err = sql.Open(driverName, "file:"+file+"?_fk=1")
+		if err == nil {
+			client = gen.NewClient(gen.Driver(entsql.OpenDB(dialect.SQLite, db)))
+		}
+	}
 	if err != nil {
 		return nil, err
 	}
@@ -403,14 +423,13 @@ func (e *repoExec) execWith(h sim.History, next func(dump []def.Task, issued []s
 				skipUTC = true
 			}
 			fresh, _ := newRepoUnderTest("mem", e.scratch)
-			if e.scribble && len(tok) > 1 && tok[1] != "json" {
-				// hand Load a copy that is scribbled over afterwards
+			if e.scribble {
+				// hand Load a private deep copy; it is scribbled over right after Load returned (below)
 				cp := make([]inmemory.KeyValue, len(kv))
 				for i, p := range kv {
 					cp[i] = inmemory.KeyValue{Key: p.Key, Value: p.Value.Clone()}
 				}
 				kv = cp
-				defer func(kv []inmemory.KeyValue) { e.scribbled += scribbleTasks(kvTasks(kv)) }(kv)
 			}
 			lerr := fresh.mem.Load(kv)
 			// the model must be told what was loaded: the snapshot, not the current state
@@ -432,6 +451,14 @@ func (e *repoExec) execWith(h sim.History, next func(dump []def.Task, issued []s
 				issued = nil
 				for _, p := range kv {
 					issued = append(issued, p.Key)
+				}
+				if e.scribble {
+					// the loaded store must not share maps with the []KeyValue its caller still holds
+					before := proto.Tasks(u.dump(issued))
+					e.scribbled += scribbleTasks(kvTasks(kv))
+					if after := proto.Tasks(u.dump(issued)); after != before {
+						out = append(out, "mismatch C19 scribbling over the snapshot passed to Load changed the loaded store")
+					}
 				}
 			}
 		case "lodbad":
@@ -769,7 +796,7 @@ func (g *repoGen) next(dump []def.Task, issued []string, impl string) string {
 		return fmt.Sprintf("get %s %s", c, proto.Str(g.target(issued)))
 	case w < 90:
 		return fmt.Sprintf("nxt %s", c)
-	case w < 94 && impl != "mem" && g.profile == "recover":
+	case w < 98 && impl != "mem" && g.profile == "recover":
 		return fmt.Sprintf("%s %s %s", rng.Pick(r, []string{"rev", "cdp", "del", "rev"}), "0", g.tick())
 	default:
 		return fmt.Sprintf("fnd %s %d %d %s", c, r.Intn(3), rng.Pick(r, []int{-1, -1, 1, 2, 5}), proto.Query(g.query(dump)))
